@@ -33,8 +33,49 @@ MESSAGE_FUNCS = {"print", "CParsingError", "colors", "repr", "dprint"}
 Role = Tuple[str, object, ast.AST]
 
 
+def _loop_column(fn: Fn, name: ast.Name):
+    """Values a loop variable takes when it ranges over a constant table: `for kind, prefix, code in ((..), (..))`."""
+    for n in walk_fn(fn.node):
+        if not isinstance(n, (ast.For, ast.comprehension)):
+            continue
+        tgt = n.target
+        path = None
+        if isinstance(tgt, ast.Name) and tgt.id == name.id:
+            path = ()
+        elif isinstance(tgt, (ast.Tuple, ast.List)):
+            for i, e in enumerate(tgt.elts):
+                if isinstance(e, ast.Name) and e.id == name.id:
+                    path = (i,)
+        if path is None or not (_inside(name, n) if isinstance(n, ast.For) else _inside(name, parent(n))):
+            continue
+        it = n.iter
+        if isinstance(it, ast.Call) and isinstance(it.func, ast.Attribute) and it.func.attr == "items" and not it.args:
+            table = fold_in_fn(it.func.value, fn, default=None)
+            table = list(table.items()) if isinstance(table, dict) else None
+        else:
+            table = fold_in_fn(it, fn, default=None)
+            if isinstance(table, dict):
+                table = list(table)
+        if not isinstance(table, (list, tuple, set, frozenset)):
+            return None
+        out = []
+        for row in table:
+            v = row
+            for i in path:
+                if not isinstance(v, (tuple, list)) or i >= len(v):
+                    return None
+                v = v[i]
+            out.append(v)
+        return out
+    return None
+
+
 def _consts(fn: Fn, e) -> Optional[List[str]]:
     v = fold_in_fn(e, fn, default=None)
+    if v is None and isinstance(e, ast.Name) and getattr(e, "_sa_parent", None) is not None:
+        col = _loop_column(fn, e)
+        if col is not None and all(isinstance(x, (str, type(None))) for x in col):
+            return [x for x in col if isinstance(x, str)]
     if isinstance(v, str):
         return [v]
     if isinstance(v, (tuple, list, set, frozenset)) and all(isinstance(x, (str, type(None))) for x in v):
@@ -118,6 +159,9 @@ def classify(fn: Fn, node: ast.AST, depth=0, seen=None) -> List[Role]:
                     and not any(p.func.value is x for x in [node]):
                 # "...{}...".format(text) / sep.join([... text ...]): the text flows into the resulting string
                 return _joined(fn, p, depth, seen)
+            if fname in ("set", "frozenset"):
+                cs = _charset_test(fn, p)
+                return cs if cs is not None else classify(fn, p, depth + 1, seen)
             if fname in ("str", "list", "tuple", "sorted", "reversed", "iter"):
                 return classify(fn, p, depth + 1, seen)
             if fname == "enumerate":
@@ -186,6 +230,9 @@ def classify(fn: Fn, node: ast.AST, depth=0, seen=None) -> List[Role]:
         return _joined(fn, p, depth, seen)
     if isinstance(p, ast.Subscript):
         if p.value is node:
+            pre = _slice_prefix_test(fn, p)
+            if pre is not None:
+                return pre
             return classify(fn, p, depth + 1, seen)      # element / slice of the text (or of the list derived from it)
         return [("UNCLASSIFIED", "used as an index/key", p)]
     if isinstance(p, ast.Starred):
@@ -296,6 +343,57 @@ def guarded_constants(fn: Fn, use) -> Optional[List[str]]:
     return best
 
 
+def _slice_prefix_test(fn: Fn, sub: ast.Subscript) -> Optional[List[Role]]:
+    """text[:k] == "xx" / text[-k:] != "xx" / text[0] == "x": a prefix (suffix) test, like startswith / endswith."""
+    sl = sub.slice
+    ok = False
+    if isinstance(sl, ast.Slice) and sl.step is None:
+        lo, hi = sl.lower, sl.upper
+        if lo is None and hi is not None and isinstance(fold_in_fn(hi, fn, default=None), int):
+            ok = True
+        if hi is None and isinstance(lo, ast.UnaryOp) and isinstance(lo.op, ast.USub):
+            ok = True
+    elif isinstance(fold_in_fn(sl, fn, default=None), int) and fold_in_fn(sl, fn, default=None) in (0, -1):
+        ok = True
+    cmp = parent(sub)
+    if ok and isinstance(cmp, ast.Compare) and len(cmp.ops) == 1 and isinstance(cmp.ops[0], (ast.Eq, ast.NotEq, ast.In, ast.NotIn)) \
+            and cmp.left is sub:
+        c = _consts(fn, cmp.comparators[0])
+        if c is not None:
+            return [("PREFIX", c, cmp)]
+    return None
+
+
+def _charset_test(fn: Fn, setcall: ast.Call) -> Optional[List[Role]]:
+    """set(text) <= ALPHABET / set(text).issubset(ALPHABET) / set(text) - ALPHABET / set(text).difference(ALPHABET):
+    which characters occur, tested against a constant alphabet."""
+    def alphabet(e):
+        if isinstance(e, ast.Call) and isinstance(e.func, ast.Name) and e.func.id in ("set", "frozenset") and len(e.args) == 1:
+            e = e.args[0]
+        v = fold_in_fn(e, fn, default=None)
+        if isinstance(v, str):
+            return v
+        if isinstance(v, (set, frozenset, list, tuple)) and all(isinstance(x, str) and len(x) == 1 for x in v):
+            return "".join(sorted(v))
+        return None
+    p = parent(setcall)
+    if isinstance(p, ast.Compare) and len(p.ops) == 1 and isinstance(p.ops[0], (ast.LtE, ast.Lt)) and p.left is setcall:
+        a = alphabet(p.comparators[0])
+        return [("CHARCLASS", a, p)] if a is not None else None
+    if isinstance(p, ast.Compare) and len(p.ops) == 1 and isinstance(p.ops[0], (ast.GtE, ast.Gt)) and p.comparators[0] is setcall:
+        a = alphabet(p.left)
+        return [("CHARCLASS", a, p)] if a is not None else None
+    if isinstance(p, ast.BinOp) and isinstance(p.op, ast.Sub) and p.left is setcall:
+        a = alphabet(p.right)
+        return [("CHARCLASS", a, p)] if a is not None else None
+    if isinstance(p, ast.Attribute) and p.value is setcall and p.attr in ("issubset", "difference", "isdisjoint"):
+        call = parent(p)
+        if isinstance(call, ast.Call) and call.func is p and len(call.args) == 1 and p.attr != "isdisjoint":
+            a = alphabet(call.args[0])
+            return [("CHARCLASS", a, call)] if a is not None else None
+    return None
+
+
 def _is_condition(e) -> bool:
     p = parent(e)
     while isinstance(p, (ast.BoolOp, ast.UnaryOp)):
@@ -364,6 +462,8 @@ def _classify_char_or_element(fn, use: ast.Name, depth, seen) -> List[Role]:
         c = fold_in_fn(p.comparators[0], fn, default=None)
         if isinstance(c, str):
             return [("CHARCLASS", c, p)]
+        if isinstance(c, (set, frozenset, list, tuple)) and c and all(isinstance(x, str) and len(x) == 1 for x in c):
+            return [("CHARCLASS", "".join(sorted(c)), p)]
     return classify(fn, use, depth + 1, seen)
 
 
@@ -431,11 +531,11 @@ def guard_kinds(prog, fn: Fn, tok_expr, at) -> Optional[Set[str]]:
     def positive(c) -> Optional[Set[str]]:
         """kinds established when condition c is TRUE"""
         inner = c
-        if isinstance(c, ast.Compare) and len(c.ops) == 1 and isinstance(c.ops[0], ast.Is) and text(c.comparators[0]) == "True":
+        if isinstance(c, ast.Compare) and len(c.ops) == 1 and isinstance(c.ops[0], (ast.Is, ast.Eq)) and text(c.comparators[0]) == "True":
             inner = c.left
         if isinstance(inner, ast.Call) and isinstance(inner.func, ast.Attribute) and inner.func.attr == "check_token" \
                 and len(inner.args) >= 2 and idx is not None and text(inner.args[0]) == idx and (inner is c or True):
-            if inner is c or isinstance(c.ops[0], ast.Is):
+            if inner is c or isinstance(c.ops[0], (ast.Is, ast.Eq)):
                 return kinds_of(inner.args[1])
         if isinstance(c, ast.Compare) and len(c.ops) == 1 and text(c.left) == tname + ".type":
             if isinstance(c.ops[0], (ast.Eq, ast.In)):
@@ -446,7 +546,9 @@ def guard_kinds(prog, fn: Fn, tok_expr, at) -> Optional[Set[str]]:
         """kinds established when condition c is FALSE"""
         if isinstance(c, ast.UnaryOp) and isinstance(c.op, ast.Not):
             return positive(c.operand)
-        if isinstance(c, ast.Compare) and len(c.ops) == 1 and isinstance(c.ops[0], ast.Is) and text(c.comparators[0]) == "False":
+        if isinstance(c, ast.Compare) and len(c.ops) == 1 and (
+                (isinstance(c.ops[0], (ast.Is, ast.Eq)) and text(c.comparators[0]) == "False") or
+                (isinstance(c.ops[0], (ast.IsNot, ast.NotEq)) and text(c.comparators[0]) == "True")):
             inner = c.left
             if isinstance(inner, ast.Call) and isinstance(inner.func, ast.Attribute) and inner.func.attr == "check_token" \
                     and len(inner.args) >= 2 and idx is not None and text(inner.args[0]) == idx:
@@ -526,6 +628,22 @@ def guard_kinds(prog, fn: Fn, tok_expr, at) -> Optional[Set[str]]:
         if isinstance(a, (ast.FunctionDef, ast.AsyncFunctionDef)):
             break
         cur = a
+    # 4. any test whose outcome dominates the read in the CFG (guard clauses far above, merged / split conditions, a kind
+    #    held in a local: `kind = tok.type`), provided nothing the test mentions is rebound between the test and the read
+    try:
+        from .dataflow import _rd_of, cfg_node_of
+        from .rules.c03 import dominating_atoms
+        g, rd = _rd_of(fn)
+        r_at = cfg_node_of(g, at)
+        for atom, negated, t in dominating_atoms(fn, at):
+            names = {n.id for n in ast.walk(atom) if isinstance(n, ast.Name)} - {"context", "self", "True", "False", "None"}
+            if r_at is None or any(rd.get(t.id, {}).get(nm, set()) != rd.get(r_at, {}).get(nm, set()) for nm in names):
+                continue
+            k = negative(atom) if negated else positive(atom)
+            if k is not None:
+                found.append(k)
+    except RecursionError:
+        pass
     if not found:
         return None
     out = found[0]
